@@ -182,6 +182,18 @@ CHECKS["C20"] = dict(
          "non-dyadic set_qubit_state angles are outside (the latter is composed from C19).",
     design="3/C20")
 
+CHECKS["C08"] = dict(
+    engine="cyclo+symx",
+    technique="SMT (z3 QF_LRA + LIA): original (vanilla semantics) vs really-transpiled (NV semantics) subroutine on an exact state-vector executor from an arbitrary state, symbolic registers and outcomes",
+    text="~110 vanilla subroutine templates over electron + 2 carbons (every gate on every qubit, CNOT/CPHASE in every placement, conditionals "
+         "and loops across expanded gates, end labels, branches past the end, measurement-steered gates, backward jumps into an expansion, "
+         "Q registers re-written or loaded, debug on/off) are executed before and after the real NVSubroutineTranspiler; z3 decides per "
+         "path that classical registers/arrays and measurement record are equal, that the final states are equal up to zeta^k for every "
+         "input state, that non-gate instructions keep their order and that every controlled rotation is driven by the electron.",
+    note="Trusted: z3; vf/cyclo.py / vf/statevec.py semantics. Bounded to the listed templates (thorough adds 120 seeded composites); "
+         "rotation operands inside programs are fixed dyadic values (arbitrary n, d: C07 (b)).",
+    design="3/C08")
+
 NOT_YET = "check not built yet in this revision (work in progress; see DESIGN.md section 3 for the planned solver-based check)"
 NOT_APPLICABLE = {}
 
